@@ -112,7 +112,8 @@ def _elem(q):
             if v < q:
                 special.add(v)
         k += 8
-    return st.one_of(st.integers(0, q - 1), st.sampled_from(sorted(special)))
+    top = 1 << (q.bit_length() - 1)  # elements with the top bit set need the last byte
+    return st.one_of(st.integers(0, q - 1), st.sampled_from(sorted(special)), st.integers(min(top, q - 1), q - 1))
 
 
 def _divisors(n):
